@@ -42,6 +42,12 @@ Theorem C10_le_report_b_sound : forall a b, le_report_b a b = true -> le_report 
 Proof. exact le_report_b_sound. Qed.
 Print Assumptions C10_le_report_b_sound.
 
+(* ... and complete when the sibling names of the later report are pairwise distinct (reports built by the writer: Writer.v refuses
+   duplicates), so a `false` computed by the check means the relation really fails *)
+Theorem C10_le_report_b_complete : forall a b, le_report a b -> unique_names b -> le_report_b a b = true.
+Proof. exact le_report_b_complete. Qed.
+Print Assumptions C10_le_report_b_complete.
+
 (* ---- C10_monotone ------------------------------------------------------------------------------------------------------ *)
 (* every event the writer handles only adds items or finishes open ones -- for every event that respects the bracket discipline
    of a run (`admissible`, Model/Saving.v: nothing after SessionEnd, nothing inside an ended suite, no End / step for a finished
@@ -117,6 +123,13 @@ Theorem C10_strategy_at_each_failed_test : forall s e c s', handle_event TablesS
   then refreshed s' else ss_file s' = ss_file s.
 Proof. exact strategy_at_each_failed_test. Qed.
 Print Assumptions C10_strategy_at_each_failed_test.
+
+(* ... and that result IS in the report, finalized ("passed" or "failed", with its end time): the lookup `report.get(location)` of
+   save_at_each_failed_test_strategy cannot fail or find an unfinished result after the writer has handled the End event *)
+Theorem C10_end_event_finalizes_its_result : forall w e w' loc,
+  apply w e = Ok w' -> result_end_loc e = Some loc -> exists r, get_result loc w' = Some r /\ finalized r.
+Proof. exact end_of_result_found. Qed.
+Print Assumptions C10_end_event_finalizes_its_result.
 
 (* at_each_log and its deprecated alias at_each_event: log, check, attachment, url *)
 Theorem C10_strategy_at_each_log : forall s e c s', handle_event TablesSaving.T s (e, c) = Ok s' ->
@@ -221,6 +234,14 @@ Proof.
   destruct (run TablesSaving.T (init_sstate (Some (SFun FFailedTest)) 0) (map (fun e => (e, clk0)) ex_events)) as [s|] eqn:E;
     [|vm_compute in E; discriminate].
   exists s. vm_compute in E. inversion E; subst. repeat split; vm_compute; reflexivity.
+Qed.
+
+Example C10_witness_unique_names :
+  exists w, apply_all init_wstate ex_events = Ok w /\ unique_names (normalize w).
+Proof.
+  destruct (apply_all init_wstate ex_events) as [w|] eqn:E; [|vm_compute in E; discriminate].
+  exists w. split; [reflexivity|]. vm_compute in E. inversion E; subst. vm_compute.
+  repeat split; repeat constructor; simpl; intuition discriminate.
 Qed.
 
 Example C10_witness_crash :
